@@ -320,7 +320,13 @@ func (w *AWorld) exec(c *Call) {
 		c.OK, c.Err = ldapBind(a.ldapAddr, c.User, c.PW)
 	case "basic":
 		req := httptest.NewRequest("GET", "/basic-auth", nil)
-		req.SetBasicAuth(c.User, c.PW)
+		switch c.Raw {
+		case "":
+			req.SetBasicAuth(c.User, c.PW)
+		case "no-header":
+		default:
+			req.Header.Set("Authorization", c.Raw) // a malformed or foreign-scheme header
+		}
 		rec := httptest.NewRecorder()
 		if p := serveRecover(a.mux, rec, req); p != "" {
 			c.Status, c.Body = -1, "HANDLER PANIC: "+p
